@@ -216,8 +216,26 @@ type ChildDecodeResult struct {
 }
 
 type childAnswer struct {
-	Evs []Ev
-	Err bool
+	Evs   []Ev
+	FBits []uint64 // math.Float64bits of Evs[i].F (gob drops the sign of a negative zero)
+	Err   bool
+}
+
+func packAnswer(evs []Ev, err bool) childAnswer {
+	a := childAnswer{Evs: make([]Ev, len(evs)), FBits: make([]uint64, len(evs)), Err: err}
+	for i, e := range evs {
+		a.FBits[i] = math.Float64bits(e.F)
+		e.F = 0
+		a.Evs[i] = e
+	}
+	return a
+}
+
+func (a childAnswer) events() []Ev {
+	for i := range a.Evs {
+		a.Evs[i].F = math.Float64frombits(a.FBits[i])
+	}
+	return a.Evs
 }
 
 func cbeDecWorker() {
@@ -269,7 +287,7 @@ func cbeDecWorker() {
 					return d.DecodeDocument(doc, rcv)
 				}()
 				var buf bytes.Buffer
-				if gerr := gob.NewEncoder(&buf).Encode(childAnswer{Evs: rec.Evs, Err: derr != nil}); gerr != nil {
+				if gerr := gob.NewEncoder(&buf).Encode(packAnswer(rec.Evs, derr != nil)); gerr != nil {
 					fmt.Fprintf(out, "bad gob %v\n", gerr)
 				} else {
 					fmt.Fprintf(out, "%s\n", base64.StdEncoding.EncodeToString(buf.Bytes()))
@@ -350,7 +368,7 @@ func DecodeInChild(docs [][]byte, opt ChildDecodeOpts) []ChildDecodeResult {
 				if err != nil || gob.NewDecoder(bytes.NewReader(raw)).Decode(&a) != nil {
 					panic("cbe-dec-worker: bad answer " + line)
 				}
-				res[next] = ChildDecodeResult{Evs: a.Evs, Err: a.Err}
+				res[next] = ChildDecodeResult{Evs: a.events(), Err: a.Err}
 				next++
 			case <-time.After(opt.Timeout):
 				note = "timeout"
@@ -990,12 +1008,23 @@ func cbeDecFamilies(c *Ctx, k *cbeCorr, pristine [][]byte, nMut, nTruncDocs, nRa
 	k.addDec(cbeDirectedDecoderDocs(c.Thorough()), "directed")
 	// document size limit
 	cd, cm := [][]byte{}, []uint64{}
-	for i := 0; i < 6 && i < len(pristine); i++ {
-		d := pristine[i]
-		for _, m := range []uint64{1, 2, 3, 4, 7, uint64(len(d)) - 1, uint64(len(d)), uint64(len(d)) / 2, uint64(len(d)) - 2, uint64(len(d)) - 3} {
-			if m > 0 && m <= uint64(len(d)) {
-				cd, cm = append(cd, d), append(cm, m)
-			}
+	// every limit from 1 to the document length for a few encoder outputs (the limit counts every byte consumed)
+	nlim := 0
+	for _, d := range pristine {
+		if len(d) < 12 || len(d) > 90 {
+			continue
+		}
+		for m := 1; m <= len(d)+1; m++ {
+			cd, cm = append(cd, d), append(cm, uint64(m))
+		}
+		nlim++
+		if nlim >= 5 {
+			break
+		}
+	}
+	for _, d := range cbeDirectedDecoderDocs(false) {
+		if len(d) >= 3 && len(d) <= 40 {
+			cd, cm = append(cd, d, d), append(cm, uint64(len(d)), uint64(len(d)-1))
 		}
 	}
 	k.addDecCfg(cd, cm, "maxdoc")
